@@ -200,7 +200,7 @@ def mangleSpec (c : Config) (p : Packet) : Verdict :=
 
 def specStep (c : Config) (f : Fate) (t : Table) : Fate :=
   if f.dropped || f.loop then f
-  else if t == .nat && f.pkt.ctstate != .new then f
+  else if t == .nat && !natConsulted f.pkt.hook f.pkt.ctstate f.pkt.inIf then f
   else
     match (match t with
            | .mangle => mangleSpec c f.pkt
